@@ -1,6 +1,7 @@
 package main
 
 import (
+	"fmt"
 	"math/big"
 	"strings"
 )
@@ -150,8 +151,66 @@ func pow2Big(k *big.Int) *big.Int {
 }
 
 type folder struct {
-	env map[string]*sx // names defined as constants
+	env     map[string]*sx      // names defined as constants or constructor terms
+	structs map[string][]string // struct datatype name -> field names in order
+	facts   map[string]bool     // small atomic formulas asserted unconditionally
+	rank    map[string]int      // allocation order of object references
 }
+
+var strCtorArity = map[string]int{"str1": 1, "str2": 2, "str3": 3, "str4": 4, "str5": 5, "str6": 6}
+
+func (x *sx) headAtom() string {
+	if x.list == nil || len(x.list) == 0 || x.list[0].list != nil {
+		return ""
+	}
+	return x.list[0].atom
+}
+
+// isCtorTerm: a term built from a string/atom/struct/sequence constructor (worth inlining).
+func isCtorTerm(x *sx) bool {
+	h := x.headAtom()
+	if _, ok := strCtorArity[h]; ok {
+		return true
+	}
+	if h == "a.num" || strings.HasPrefix(h, "mk_") || h == "store" {
+		return true
+	}
+	if x.list != nil && len(x.list) > 0 && x.list[0].list != nil && len(x.list[0].list) == 3 && x.list[0].list[0].isAtom("as") && (x.list[0].list[1].isAtom("mkseq") || x.list[0].list[1].isAtom("const")) {
+		return true
+	}
+	if x.list == nil && (x.atom == "a.none" || x.atom == "a.empty" || x.atom == "str.empty" || x.atom == "notail") {
+		return true
+	}
+	return false
+}
+
+func realLit(n *big.Int) *sx {
+	if n.Sign() < 0 {
+		return &sx{list: []*sx{{atom: "-"}, {atom: new(big.Int).Neg(n).String() + ".0"}}}
+	}
+	return &sx{atom: n.String() + ".0"}
+}
+
+// integer-valued real literal: 12.0 or (- 12.0)
+func (x *sx) realInt() (*big.Int, bool) {
+	if x.list == nil {
+		if strings.HasSuffix(x.atom, ".0") {
+			n, ok := new(big.Int).SetString(strings.TrimSuffix(x.atom, ".0"), 10)
+			if ok && n.Sign() >= 0 {
+				return n, true
+			}
+		}
+		return nil, false
+	}
+	if len(x.list) == 2 && x.list[0].isAtom("-") {
+		if n, ok := x.list[1].realInt(); ok && x.list[1].list == nil {
+			return new(big.Int).Neg(n), true
+		}
+	}
+	return nil, false
+}
+
+var big2p53 = new(big.Int).Lsh(big.NewInt(1), 53)
 
 func (f *folder) fold(x *sx) *sx {
 	if x == nil {
@@ -346,6 +405,12 @@ func (f *folder) fold(x *sx) *sx {
 			if allNum {
 				return boolSx(nums[0].Cmp(nums[1]) == 0)
 			}
+			if args[0].String() == args[1].String() {
+				return boolSx(true)
+			}
+			if r, ok := ctorEq(args[0], args[1]); ok {
+				return f.fold(r)
+			}
 			if (isTrue(args[0]) || isFalse(args[0])) && (isTrue(args[1]) || isFalse(args[1])) {
 				return boolSx(args[0].atom == args[1].atom)
 			}
@@ -432,8 +497,315 @@ func (f *folder) fold(x *sx) *sx {
 				return args[1]
 			}
 		}
+	case "distinct":
+		if allNum && len(nums) == 2 {
+			return boolSx(nums[0].Cmp(nums[1]) != 0)
+		}
+	// ---- strings and atoms
+	case "fld":
+		if len(args) == 2 && nums[1] != nil && nums[1].IsInt64() {
+			k := nums[1].Int64()
+			if k >= 0 && k <= 5 {
+				return f.fold(&sx{list: []*sx{{atom: fmt.Sprintf("f%d", k)}, args[0]}})
+			}
+			return &sx{atom: "a.none"}
+		}
+	case "f0", "f1", "f2", "f3", "f4", "f5":
+		if len(args) == 1 {
+			if n, ok := strCtorArity[args[0].headAtom()]; ok {
+				k := int(head.atom[1] - '0')
+				if k < n {
+					return args[0].list[1+k]
+				}
+				return &sx{atom: "a.none"}
+			}
+			if args[0].isAtom("str.empty") {
+				if head.atom == "f0" {
+					return &sx{atom: "a.empty"}
+				}
+				return &sx{atom: "a.none"}
+			}
+		}
+	case "nf":
+		if len(args) == 1 {
+			if n, ok := strCtorArity[args[0].headAtom()]; ok {
+				return numSx(big.NewInt(int64(n)))
+			}
+			if args[0].isAtom("str.empty") {
+				return numSx(big.NewInt(1))
+			}
+		}
+	case "rest":
+		if len(args) == 1 {
+			if _, ok := strCtorArity[args[0].headAtom()]; ok || args[0].isAtom("str.empty") {
+				return &sx{atom: "notail"}
+			}
+		}
+	case "str.fmt":
+		if len(args) == 1 {
+			return &sx{list: []*sx{{atom: "str1"}, {list: []*sx{{atom: "a.num"}, args[0]}}}}
+		}
+	case "a.value", "a.val":
+		if len(args) == 1 && args[0].headAtom() == "a.num" {
+			return args[0].list[1]
+		}
+	case "a.isnum":
+		if len(args) == 1 {
+			if args[0].headAtom() == "a.num" {
+				return f.fold(&sx{list: []*sx{{atom: "in64"}, args[0].list[1]}})
+			}
+			if args[0].isAtom("a.none") || args[0].isAtom("a.empty") {
+				return boolSx(false)
+			}
+		}
+	case "a.ok":
+		if len(args) == 1 {
+			if args[0].headAtom() == "a.num" || args[0].isAtom("a.empty") {
+				return boolSx(true)
+			}
+			if args[0].isAtom("a.none") {
+				return boolSx(false)
+			}
+		}
+	case "str.isnum":
+		if len(args) == 1 {
+			if n, ok := strCtorArity[args[0].headAtom()]; ok {
+				if n != 1 {
+					return boolSx(false)
+				}
+				return f.fold(&sx{list: []*sx{{atom: "a.isnum"}, args[0].list[1]}})
+			}
+		}
+	case "str.val":
+		if len(args) == 1 {
+			if n, ok := strCtorArity[args[0].headAtom()]; ok && n >= 1 {
+				return f.fold(&sx{list: []*sx{{atom: "a.value"}, args[0].list[1]}})
+			}
+		}
+	case "str.wf":
+		if len(args) == 1 {
+			if _, ok := strCtorArity[args[0].headAtom()]; ok {
+				var conj []*sx
+				conj = append(conj, &sx{atom: "and"})
+				for _, a := range args[0].list[1:] {
+					conj = append(conj, &sx{list: []*sx{{atom: "a.ok"}, a}})
+				}
+				return f.fold(&sx{list: conj})
+			}
+		}
+	case "strjoin":
+		if len(args) == 2 {
+			n1, ok1 := strCtorArity[args[0].headAtom()]
+			n2, ok2 := strCtorArity[args[1].headAtom()]
+			if ok1 && ok2 && n1+n2 <= 6 {
+				out := &sx{list: []*sx{{atom: fmt.Sprintf("str%d", n1+n2)}}}
+				out.list = append(out.list, args[0].list[1:]...)
+				out.list = append(out.list, args[1].list[1:]...)
+				return out
+			}
+		}
+	case "strcat":
+		if len(args) == 2 {
+			n1, ok1 := strCtorArity[args[0].headAtom()]
+			n2, ok2 := strCtorArity[args[1].headAtom()]
+			if ok1 && ok2 && n1+n2-1 <= 6 {
+				last := args[0].list[n1]
+				first := args[1].list[1]
+				var mid *sx
+				if last.isAtom("a.empty") {
+					mid = first
+				} else if first.isAtom("a.empty") {
+					mid = last
+				}
+				if mid != nil {
+					out := &sx{list: []*sx{{atom: fmt.Sprintf("str%d", n1+n2-1)}}}
+					out.list = append(out.list, args[0].list[1:n1]...)
+					out.list = append(out.list, mid)
+					out.list = append(out.list, args[1].list[2:]...)
+					return out
+				}
+			}
+		}
+	// ---- arrays, sequences, structs
+	case "select":
+		if len(args) == 2 {
+			a := args[0]
+			for a.headAtom() == "store" && len(a.list) == 4 {
+				si := a.list[2]
+				if si.String() == args[1].String() {
+					return a.list[3]
+				}
+				n1, ok1 := si.num()
+				n2, ok2 := args[1].num()
+				if ok1 && ok2 && n1.Cmp(n2) != 0 {
+					a = a.list[1]
+					continue
+				}
+				if f.rank != nil && si.list == nil && args[1].list == nil {
+					r1, k1 := f.rank[si.atom]
+					r2, k2 := f.rank[args[1].atom]
+					if k1 && k2 && r1 != r2 {
+						a = a.list[1]
+						continue
+					}
+				}
+				break
+			}
+			if a != args[0] {
+				return &sx{list: []*sx{head, a, args[1]}}
+			}
+		}
+	case "seq.len", "seq.el":
+		if len(args) == 1 && args[0].list != nil && len(args[0].list) == 3 && args[0].list[0].list != nil && len(args[0].list[0].list) == 3 && args[0].list[0].list[1].isAtom("mkseq") {
+			if head.atom == "seq.len" {
+				return args[0].list[1]
+			}
+			return args[0].list[2]
+		}
+	// ---- reals that are integers
+	case "i2f":
+		if allNum && len(nums) == 1 && new(big.Int).Abs(nums[0]).Cmp(big2p53) <= 0 {
+			return realLit(nums[0])
+		}
+	case "to_real":
+		if allNum && len(nums) == 1 {
+			return realLit(nums[0])
+		}
+	case "to_int", "trunc", "floor", "ceil":
+		if len(args) == 1 {
+			if n, ok := args[0].realInt(); ok {
+				return numSx(n)
+			}
+			if args[0].headAtom() == "to_real" && len(args[0].list) == 2 {
+				return args[0].list[1]
+			}
+			if args[0].headAtom() == "ite" && len(args[0].list) == 4 {
+				it := args[0]
+				return f.fold(&sx{list: []*sx{{atom: "ite"}, it.list[1], {list: []*sx{head, it.list[2]}}, {list: []*sx{head, it.list[3]}}}})
+			}
+		}
+	case "f.mod":
+		// Mod of a converted integer by an integer-valued constant: stay in integer arithmetic
+		if len(args) == 2 && args[0].headAtom() == "i2f" && len(args[0].list) == 2 {
+			if n, ok := args[1].realInt(); ok && n.Sign() > 0 && n.Cmp(big2p53) < 0 {
+				sarg := args[0].list[1]
+				return &sx{list: []*sx{{atom: "ite"},
+					{list: []*sx{{atom: "<"}, {list: []*sx{{atom: "iabs"}, sarg}}, numSx(big2p53)}},
+					{list: []*sx{{atom: "to_real"}, {list: []*sx{{atom: "tmod"}, sarg, numSx(n)}}}},
+					{list: []*sx{{atom: "u.mod"}, args[0], args[1]}}}}
+			}
+		}
+	case "rabs":
+		if len(args) == 1 {
+			if n, ok := args[0].realInt(); ok {
+				return realLit(new(big.Int).Abs(n))
+			}
+		}
+	case "f.pow":
+		if len(args) == 2 {
+			b, ok1 := args[0].realInt()
+			e, ok2 := args[1].realInt()
+			if ok1 && ok2 && b.Cmp(big.NewInt(2)) == 0 && e.IsInt64() && e.Int64() >= 0 && e.Int64() <= maxPow {
+				return realLit(pow2Big(e))
+			}
+		}
+	case "rpow2":
+		if allNum && len(nums) == 1 && nums[0].IsInt64() && nums[0].Int64() >= 0 && nums[0].Int64() <= maxPow {
+			return realLit(pow2Big(nums[0]))
+		}
+	case "is_int":
+		if len(args) == 1 {
+			if _, ok := args[0].realInt(); ok {
+				return boolSx(true)
+			}
+		}
+	}
+	// facts asserted unconditionally earlier in the script
+	if f.facts != nil && len(args) <= 2 {
+		small := true
+		for _, a := range args {
+			if a.list != nil && len(a.list) > 3 {
+				small = false
+			}
+		}
+		if small {
+			switch head.atom {
+			case "in64", "<=", "<", ">=", ">", "=", "a.isnum", "str.wf", "a.ok":
+				if f.facts[mk().String()] {
+					return boolSx(true)
+				}
+			}
+		}
+	}
+	// struct projections: (T.f (mk_T a b ...))
+	if i := strings.Index(head.atom, "."); i > 0 && len(args) == 1 && f.structs != nil {
+		sname := head.atom[:i]
+		if fields, ok := f.structs[sname]; ok && args[0].headAtom() == "mk_"+sname {
+			for k, fn := range fields {
+				if fn == head.atom[i+1:] && 1+k < len(args[0].list) {
+					return args[0].list[1+k]
+				}
+			}
+		}
 	}
 	return mk()
+}
+
+func (f *folder) recordFacts(b *sx) {
+	if f.facts == nil {
+		f.facts = map[string]bool{}
+	}
+	if b.headAtom() == "and" {
+		for _, c := range b.list[1:] {
+			f.recordFacts(c)
+		}
+		return
+	}
+	switch b.headAtom() {
+	case "in64", "<=", "<", ">=", ">", "=", "a.isnum", "str.wf", "a.ok":
+		if s := b.String(); len(s) < 200 {
+			f.facts[s] = true
+		}
+	}
+	// (> newref oldref): references are allocated in strictly increasing order
+	if b.headAtom() == ">" && len(b.list) == 3 && b.list[1].list == nil && b.list[2].list == nil {
+		if f.rank == nil {
+			f.rank = map[string]int{"top!0": 0}
+		}
+		if r, ok := f.rank[b.list[2].atom]; ok {
+			if _, have := f.rank[b.list[1].atom]; !have {
+				f.rank[b.list[1].atom] = r + 1
+			}
+		}
+	}
+}
+
+// ctorEq decides or decomposes equality between constructor terms.
+func ctorEq(a, b *sx) (*sx, bool) {
+	ha, hb := a.headAtom(), b.headAtom()
+	na, oka := strCtorArity[ha]
+	nb, okb := strCtorArity[hb]
+	if oka && okb {
+		if na != nb {
+			return boolSx(false), true
+		}
+		conj := []*sx{{atom: "and"}}
+		for i := 1; i <= na; i++ {
+			conj = append(conj, &sx{list: []*sx{{atom: "="}, a.list[i], b.list[i]}})
+		}
+		return &sx{list: conj}, true
+	}
+	if ha == "a.num" && hb == "a.num" {
+		return &sx{list: []*sx{{atom: "="}, a.list[1], b.list[1]}}, true
+	}
+	isConstAtom := func(x *sx) bool { return x.isAtom("a.none") || x.isAtom("a.empty") }
+	if (ha == "a.num" && isConstAtom(b)) || (hb == "a.num" && isConstAtom(a)) {
+		return boolSx(false), true
+	}
+	if isConstAtom(a) && isConstAtom(b) {
+		return boolSx(a.atom == b.atom), true
+	}
+	return nil, false
 }
 
 // foldLine partially evaluates one script line; define-funs whose body
@@ -453,6 +825,14 @@ func (f *folder) foldLine(line string, px *sx) string {
 			body := f.fold(x.list[4])
 			if _, ok := body.num(); ok || body.isAtom("true") || body.isAtom("false") {
 				f.env[x.list[1].atom] = body
+			} else if _, ok := body.realInt(); ok {
+				f.env[x.list[1].atom] = body
+			} else if (body.headAtom() == "i2f" || body.headAtom() == "to_real") && len(body.list) == 2 && body.list[1].list == nil {
+				f.env[x.list[1].atom] = body
+			} else if isCtorTerm(body) && len(body.String()) < 4000 {
+				f.env[x.list[1].atom] = body
+			} else if body.list == nil && body.atom != "" {
+				f.env[x.list[1].atom] = body // alias
 			}
 			x.list[4] = body
 			return x.String()
@@ -464,6 +844,7 @@ func (f *folder) foldLine(line string, px *sx) string {
 			if b.isAtom("true") {
 				return ""
 			}
+			f.recordFacts(b)
 			x.list[1] = b
 			return x.String()
 		}
